@@ -26,6 +26,7 @@ macro_rules! dispatch {
             "C16" => $f(props::c16::C16, $($arg),*),
             "C17" => $f(props::c17::C17, $($arg),*),
             "C18" => $f(props::c18::C18, $($arg),*),
+            "C19" => $f(props::c19::C19, $($arg),*),
             _ => { eprintln!("unknown property {}", $id); 2 }
         }
     };
@@ -88,5 +89,6 @@ fn main() {
         }
         _ => usage(),
     };
+    props::c19::cleanup_tmp();
     std::process::exit(code);
 }
